@@ -4,13 +4,21 @@ CONSTANTS
   Slots = {"A", "B"}
   Keys = {"a1", "a2", "b1"}
   SlotOf <- MCSlotOf
-  MaxCmds = 4
+  MaxCmds = 3
   MaxHops = 3
   WithMigration = FALSE
   EmptyTableAtStart = FALSE
   AtomicAsk = TRUE
   WithFailover = FALSE
   FixRefreshOnDialError = TRUE
+  StepwiseRefresh = TRUE
+  ClearBeforeFill = FALSE
+  MaxTicks = 1
+  LazyConnect = FALSE
+  AsyncRedirectDial = FALSE
+  TrackOrder = FALSE
+  WithDemotion = FALSE
+  ReadonlyEverywhere = TRUE
 INVARIANTS EqualsReference EffectOnce SingleCopy CopyIsReference NoLostKey FirstHopIsOwner
 CONSTRAINT HopBound
 CHECK_DEADLOCK FALSE
